@@ -2,8 +2,8 @@ package rules
 
 import (
 	"fmt"
-	"os"
 	"go/types"
+	"os"
 	"sort"
 	"strings"
 
@@ -25,6 +25,7 @@ func init() {
 			rulePackageMutexPairing(c, "R2c")
 			ruleClosuresShareNothing(c, "R2d")
 			rulePool(c, "R3")
+			ruleConcatRank(c, "R4")
 		},
 	})
 }
@@ -844,7 +845,7 @@ func (c *Ctx) paramFates() map[*ssa.Function][]paramFate {
 				an.AllInstrs(f, func(in ssa.Instruction) {
 					switch x := in.(type) {
 					case *ssa.Store:
-						if set[x.Val] {
+						if set[x.Val] && !localHolder(out, rootValue(x.Addr), 0) {
 							fate.escapes = true
 						}
 						if g := rootValue(x.Addr); set[g] && x.Addr != g {
@@ -865,7 +866,7 @@ func (c *Ctx) paramFates() map[*ssa.Function][]paramFate {
 						}
 					case *ssa.MakeClosure:
 						for _, b := range x.Bindings {
-							if set[b] {
+							if set[b] && !localHolder(out, x, 0) {
 								fate.escapes = true
 							}
 						}
@@ -1126,7 +1127,6 @@ func ruleClosuresShareNothing(c *Ctx, rule string) {
 	}
 }
 
-
 // rulePoolReleaseOnce re-exports the pool typestate obligations (C07.R3 d, e) under another property: a context that
 // is released twice or touched after its release is shared by two concurrent requests.
 func rulePoolReleaseOnce(c *Ctx, rule string) {
@@ -1139,4 +1139,99 @@ func rulePoolReleaseOnce(c *Ctx, rule string) {
 			c.R.Add(rule, o.Func, o.Construct, o.At, o.OK, o.Msg)
 		}
 	}
+}
+
+// localHolder: v (a fresh allocation or a closure made in this function) never leaves the function: it is only
+// read, written through, called, or handed to callees that do not keep the corresponding parameter. Storing a
+// parameter into such a holder does not let the parameter escape.
+func localHolder(fates map[*ssa.Function][]paramFate, v ssa.Value, depth int) bool {
+	if depth > 3 {
+		return false
+	}
+	switch v.(type) {
+	case *ssa.Alloc, *ssa.MakeClosure:
+	default:
+		return false
+	}
+	refs := v.Referrers()
+	if refs == nil {
+		return false
+	}
+	var addrOK func(a ssa.Value, d int) bool
+	addrOK = func(a ssa.Value, d int) bool {
+		// an address derived from the holder: only loads, stores through it and further address computations
+		if d > 4 || a.Referrers() == nil {
+			return false
+		}
+		for _, r := range *a.Referrers() {
+			switch x := r.(type) {
+			case *ssa.UnOp:
+			case *ssa.Store:
+				if x.Val == a {
+					return false
+				}
+			case *ssa.FieldAddr:
+				if !addrOK(x, d+1) {
+					return false
+				}
+			case *ssa.IndexAddr:
+				if !addrOK(x, d+1) {
+					return false
+				}
+			case *ssa.DebugRef:
+			default:
+				return false
+			}
+		}
+		return true
+	}
+	for _, r := range *refs {
+		switch x := r.(type) {
+		case *ssa.UnOp, *ssa.DebugRef:
+		case *ssa.Store:
+			if x.Val == v {
+				return false
+			}
+		case *ssa.FieldAddr:
+			if !addrOK(x, 0) {
+				return false
+			}
+		case *ssa.IndexAddr:
+			if !addrOK(x, 0) {
+				return false
+			}
+		case *ssa.Call:
+			if x.Call.Value == v {
+				continue // the closure is called
+			}
+			g := an.StaticCallee(&x.Call)
+			if g == nil {
+				return false
+			}
+			for ai, a := range an.CallArgs(&x.Call) {
+				if a != v {
+					continue
+				}
+				if an.InModule(g) {
+					if ai >= len(fates[g]) || fates[g][ai].escapes {
+						return false
+					}
+				}
+				// a function of another module (standard library helpers such as slices.ContainsFunc, sort.Slice)
+				// is assumed not to keep its arguments
+			}
+		case *ssa.Defer:
+			if x.Call.Value != v {
+				return false
+			}
+		case *ssa.MakeClosure:
+			// a variable cell captured by a closure that itself stays local
+			if !localHolder(fates, x, depth+1) {
+				return false
+			}
+		default:
+			return false
+		}
+	}
+	return true
 }
